@@ -105,7 +105,27 @@ func RunAsyncCase(rng *rand.Rand) *AsyncResult {
 		meta.Partition = [][]int64{sh[:cut], sh[cut:]}
 	}
 	cfail := map[[2]int64]bool{}
-	if rng.Intn(4) == 0 {
+	if x := rng.Intn(8); x == 0 {
+		// wide compare failure (a chain split seen by many): a set of honest members, at least a quorum
+		// minus one of them, fails the comparison for every value an honest member may propose; values
+		// that only the coalition brings up (91, 92) compare fine. These members sit in the "accept the
+		// next round's proposal without justification" state round after round.
+		sh := append([]int64(nil), meta.Honest...)
+		rng.Shuffle(len(sh), func(i, j int) { sh[i], sh[j] = sh[j], sh[i] })
+		k := Quorum(n) - 1
+		if k > len(sh) {
+			k = len(sh)
+		}
+		if k < len(sh) && rng.Intn(2) == 0 {
+			k += rng.Intn(len(sh) - k + 1)
+		}
+		for _, p := range sh[:k] {
+			for v := int64(11); v < int64(11+nvals); v++ {
+				cfail[[2]int64{p, v}] = true
+				meta.CompareFailPairs = append(meta.CompareFailPairs, [2]int64{p, v})
+			}
+		}
+	} else if x < 3 {
 		for i := 0; i < 1+rng.Intn(3); i++ {
 			pr := [2]int64{meta.Honest[rng.Intn(len(meta.Honest))], int64(11 + rng.Intn(nvals))}
 			if !cfail[pr] {
